@@ -17,13 +17,13 @@ from koala.flux_finder import fluxes_from_ujk, fluxes_to_labels
 
 DRIVERS = ("c05",)
 MODEL_TARGETS = ["Model/Lattice.vo", "Model/Flux.vo"]
-TARGETS = ["Proofs/FluxFacts.vo", "Proofs/FluxLattice.vo"]
+TARGETS = ["Proofs/FluxFacts.vo", "Proofs/FluxLattice.vo", "Proofs/FluxAdjacent.vo"]
 LEVEL = "proof"
 TRUST = [
     "hand-written Gallina model coq/Model/Flux.v of flux_finder.fluxes_from_ujk / fluxes_to_labels (numpy fancy indexing, np.prod, complex arithmetic as Gaussian integers): modelled, not verified; tied to the code by the correspondence run (random u, and every u for E<=10/14)",
     "plaquettes come from coq/Model/Lattice.v (C01's model and trust items: exact angular predicates, margin skip < 1e-9)",
     "C05_gauge_invariant(_plaquette) take walk_consistent / plaq_consistent (each step leaves vertex i, arrives at vertex i+1, no self-loop edge) as a boolean hypothesis; it is PROVED for every plaquette of the model (C05_model_plaquette_consistent, from C01's lemmas in Proofs/LatticeFacts.v) and evaluated by the extracted model on every plaquette the implementation returned",
-    "'plaquettes adjacent to an edge' is read as 'plaquettes whose edge list contains it' in C05_single_flip_local; equality with the non-INVALID entries of edges.adjacent_plaquettes[e] is checked on the implementation (S) and is C02's clause",
+    "'plaquettes adjacent to an edge': C05_single_flip_local reads it as 'plaquettes whose edge list contains the edge'; C05_single_flip_adjacent_model proves, for the model's tables (via C02's edge_sides lemma in Proofs/PlaqTablesFacts.v), that these are the non-INVALID entries of edges_plaquettes[e]; on the implementation the flipped set is compared with the non-INVALID entries of edges.adjacent_plaquettes[e] for every flip (S)",
     "the gauge move and the bond flip are defined by the harness (u[vertices.adjacent_edges[v]] *= -1, u[e] *= -1 on a copy); compared with Flux.gauge / Flux.flip_at on small lattices",
 ]
 ASSUMPTIONS = ["lattices of C01's input space with at least one plaquette, no self-loop edges; bond variables in {-1,+1}"]
